@@ -244,7 +244,10 @@ let run_direct u line =
     (match decode (parse_bytes bytes) with
      | None -> "MODEL-NA-invalid-utf8"
      | Some input ->
-       let vf = if v = "1" then Some bracket_validator else None in
+       let script_vres s = match script_validate s with
+         | VRError -> VError | VRInvalid (Some _) -> VInvalidMsg | VRInvalid None -> VInvalid
+         | VRIncomplete -> VIncomplete | VRValid _ -> VValid in
+       let vf = if v = "1" then Some bracket_validator else if v = "2" then Some script_vres else None in
        let rs = direct_all (useg u) vf input in
        (* the child stops at the first Eof / panic; an error does not stop it *)
        let rec upto = function
